@@ -223,6 +223,8 @@ class World(BaseWorld):
             if rng.random() < c.get("p_long", 0.05):
                 k = rng.choice([12, 40, 150])
             op["schedule"] = [rng.choice([0.5, 1, 2, 3.0, 0.25, 8, 0, 1.5]) for _ in range(k)]
+            if rng.random() < c.get("p_inf_T", 0.05):
+                op["schedule"][rng.randrange(k)] = float("inf")      # an infinitely hot sweep: every move is accepted
             if rng.random() < 0.3:
                 op["sched_as"] = rng.choice(["tuple", "ndarray", "gen", "range_like"])
         elif mode == "zeros":
@@ -357,6 +359,11 @@ class World(BaseWorld):
             return {"op": "repeat", "of": of, "clock": [rng.choice([0, 5, -1, 10**9, 2**32 + 7, rng.randrange(2**31)])]}
         if c["p_dist"] and rng.random() < c["p_dist"]:
             return self.gen_dist(rng)
+        if c.get("p_huge") and rng.random() < c["p_huge"]:
+            big = rng.random() < c.get("p_huge_main", 0.0)
+            return {"op": "huge", "fn": rng.choice(c["fns"]), "N": rng.choice([1300000, 1100000]) if big else rng.choice([60000, 45000, 33000]),
+                    "stack_kb": 0 if big else 256, "in_order": rng.random() < 0.7, "init": rng.random() < 0.5, "seed": rng.randrange(1000),
+                    "schedule": rng.choice([[0], [0, 0.5], [1.0]])}
         return self.gen_anneal(rng)
 
     # ================================================================ execution
@@ -606,6 +613,8 @@ class World(BaseWorld):
             return self.apply_repeat(op)
         if kind == "dist":
             return self.apply_dist(op)
+        if kind == "huge":
+            return self.apply_huge(op)
         raise HarnessError("unknown op " + kind)
 
     def note_shape(self, op, poly, reported):
@@ -705,6 +714,82 @@ class World(BaseWorld):
                 self.fail("not_reproducible", "identical calls under an identical scripted random stream differ")
         return ["repeat", of, ev]
 
+    def apply_huge(self, op):
+        """A very large sparse model, optionally from a worker thread with a small stack (a resource fault): buffers sized
+        by N, stack use, index arithmetic.  Oracle: exact energy with numpy, domain, count; memory seam; survival."""
+        import threading
+        import numpy as np
+        import os
+        fn_name, N = op["fn"], op["N"]
+        if op["stack_kb"] == 0 and os.environ.get("VERIF_BUILD_VARIANT") == "san":
+            return ["huge", "skipped-san"]
+        kind = FN_KIND[fn_name]
+        T = self.types[{"quso": "QUSOMatrix", "puso": "PUSOMatrix", "qubo": "QUBOMatrix", "pubo": "PUBOMatrix"}[fn_name]]
+        lin_idx = np.arange(0, N, 7)
+        pair_idx = np.arange(0, N - 1, 3) if N <= 100000 else np.arange(0, 0)
+        d = {(int(i),): 1 for i in lin_idx}
+        d.update({(int(i), int(i) + 1): -1 for i in pair_idx})
+        d[(N - 1,)] = d.get((N - 1,), 0) + 2
+        model = T(d)
+        init = None
+        if op["init"]:
+            v1 = 1 if kind == SPIN else 0
+            init = {i: v1 for i in range(N)}
+        sh = self.shim
+        live_before = sh.live_blocks()
+        sh.reset()
+        sh.log_enabled(False)
+        sh.passthrough()
+        sh.clock([0])
+        box = {}
+
+        def call():
+            try:
+                with warnings.catch_warnings():
+                    warnings.simplefilter("ignore")
+                    box["res"] = self.fns[fn_name](model, num_anneals=1, schedule=list(op["schedule"]), initial_state=init,
+                                                   in_order=op["in_order"], seed=op["seed"])
+            except Exception as e:      # noqa
+                box["exc"] = e
+        if op["stack_kb"]:
+            old = threading.stack_size(op["stack_kb"] * 1024)
+            try:
+                th = threading.Thread(target=call)
+                th.start()
+                th.join()
+            finally:
+                threading.stack_size(old)
+            self.fault("small_thread_stack")
+        else:
+            call()
+        self.probe("huge_calls")
+        self.interesting = True
+        cnt = sh.counters()
+        cnt["live_before"], cnt["live_after"], cnt["live_canary_bad"] = live_before, sh.live_blocks(), sh.check_live()
+        self.check_memory({"cnt": cnt}, {"fn": fn_name})
+        if "exc" in box:
+            e = box["exc"]
+            self.fail("unexpected_exception", "huge anneal_%s N=%d: %s: %s" % (fn_name, N, type(e).__name__, str(e)[:200]))
+            return ["huge", "exc"]
+        res = box.get("res")
+        if res is None or len(res) != 1:
+            self.fail("wrong_count", "huge call returned %r results" % (None if res is None else len(res)))
+            return ["huge", "bad"]
+        st = res[0].state
+        if len(st) != N:
+            self.fail("wrong_keys", "huge call: %d keys for %d indices" % (len(st), N))
+            return ["huge", "bad"]
+        arr = np.fromiter((st[i] for i in range(N)), dtype=np.int64, count=N)
+        dom = (1, -1) if kind == SPIN else (0, 1)
+        if not np.isin(arr, dom).all():
+            self.fail("bad_state_value", "huge call: values outside %r" % (dom,))
+            return ["huge", "bad"]
+        e = int(arr[lin_idx].sum()) - int((arr[pair_idx] * arr[pair_idx + 1]).sum()) + 2 * int(arr[N - 1]) if len(pair_idx) else \
+            int(arr[lin_idx].sum()) + 2 * int(arr[N - 1])
+        if Fraction(res[0].value) != e:
+            self.fail("value_mismatch", "huge call: value %r but model(state) = %d" % (res[0].value, e))
+        return ["huge", fn_name, N, int(arr.sum()) if op["seed"] is not None else 0]
+
     def apply_dist(self, op):
         """C12 distribution claim, real PCG stream, exact chain distribution."""
         fn = op["fn"]
@@ -788,6 +873,10 @@ def gen_cfg(rng, prop, tier):
             cfg["p_dist"] = 0.5
             cfg["n_calls"] = rng.choice([1, 2, 3])
             cfg["dist_n"] = 60000 if tier == "quick" else 200000
+    if prop in ("C11", "C17") and rng.random() < 0.01:
+        cfg["p_huge"] = 0.5
+        cfg["n_calls"] = rng.choice([1, 2, 3])
+        cfg["p_huge_main"] = 0.1 if prop == "C17" else 0.0
     if prop == "C17":
         cfg["p_stale"] = rng.choice([0.0, 0.15, 0.4, 0.6])
         cfg["w_extreme"] = rng.choice([1, 2, 4])
